@@ -310,6 +310,76 @@ Proof.
     right. exists x. split; [right; exact H1 | exact H2].
 Qed.
 
+(** ** rustls write loops *)
+Definition tls_total (t : tls) : nat := t_pending t + t_flushed t.
+
+Lemma tls_accept_le t n : tls_accept t n <= n.
+Proof. unfold tls_accept; destruct (t_limit t); lia. Qed.
+
+Lemma tls_flush_conserves fuel : forall t w sched,
+  let '(t', _, _) := tls_flush fuel t w sched in
+  tls_total t' = tls_total t /\ t_pending t' <= t_pending t /\ t_limit t' = t_limit t.
+Proof.
+  induction fuel as [|f IH]; intros t w sched; cbn [tls_flush]; [auto|].
+  destruct (t_pending t =? 0); [auto|].
+  destruct sched as [|[n| | |] r]; auto.
+  destruct n as [|n]; [auto|].
+  specialize (IH (mkTls (t_pending t - Nat.min (S n) (t_pending t)) (t_limit t)
+                        (t_flushed t + Nat.min (S n) (t_pending t))) w r).
+  destruct (tls_flush f _ w r) as [[t' w'] s'].
+  unfold tls_total in *; cbn [t_pending t_flushed t_limit] in IH.
+  destruct IH as (A & B & C). split; [lia | split; [lia | exact C]].
+Qed.
+
+Lemma tls_write_loop_conserves fuel : forall len buffered t w sched,
+  buffered <= len ->
+  let '(b, t', _, _) := tls_write_loop fuel len buffered t w sched in
+  buffered <= b <= len /\ tls_total t' = tls_total t + (b - buffered).
+Proof.
+  induction fuel as [|f IH]; intros len buffered t w sched Hle; cbn [tls_write_loop]; [lia|].
+  destruct (buffered =? len); [lia|].
+  destruct (negb (w_can w) || w_err w || w_closed w); [lia|].
+  set (a := tls_accept t (len - buffered)).
+  assert (Ha : a <= len - buffered) by apply tls_accept_le.
+  pose proof (tls_flush_conserves (S (t_pending (mkTls (t_pending t + a) (t_limit t) (t_flushed t))))
+                                  (mkTls (t_pending t + a) (t_limit t) (t_flushed t)) w sched) as F.
+  destruct (tls_flush _ (mkTls (t_pending t + a) (t_limit t) (t_flushed t)) w sched) as [[t2 w2] s2].
+  destruct F as (F1 & _ & _).
+  specialize (IH len (buffered + a) t2 w2 s2 ltac:(lia)).
+  destruct (tls_write_loop f len (buffered + a) t2 w2 s2) as [[[b t'] w'] s'].
+  unfold tls_total in *; cbn [t_pending t_flushed] in F1. lia.
+Qed.
+
+Lemma tls_writev_loop_conserves fuel : forall len buffered t w sched,
+  buffered <= len ->
+  let '(b, t', _, _) := tls_writev_loop fuel len buffered t w sched in
+  buffered <= b <= len /\ tls_total t' = tls_total t + (b - buffered).
+Proof.
+  induction fuel as [|f IH]; intros len buffered t w sched Hle; cbn [tls_writev_loop]; [lia|].
+  destruct (buffered =? len); [lia|].
+  destruct (negb (w_can w) || w_err w || w_closed w); [lia|].
+  set (a := if buffered =? 0 then tls_accept t len else 0).
+  assert (Ha : a <= len - buffered).
+  { subst a. destruct (Nat.eqb_spec buffered 0); [subst; rewrite Nat.sub_0_r; apply tls_accept_le | lia]. }
+  pose proof (tls_flush_conserves (S (t_pending (mkTls (t_pending t + a) (t_limit t) (t_flushed t))))
+                                  (mkTls (t_pending t + a) (t_limit t) (t_flushed t)) w sched) as F.
+  destruct (tls_flush _ (mkTls (t_pending t + a) (t_limit t) (t_flushed t)) w sched) as [[t2 w2] s2].
+  destruct F as (F1 & _ & _).
+  destruct ((0 <? buffered + a) && (buffered + a <? len)).
+  - unfold tls_total in *; cbn [t_pending t_flushed] in F1. lia.
+  - specialize (IH len (buffered + a) t2 w2 s2 ltac:(lia)).
+    destruct (tls_writev_loop f len (buffered + a) t2 w2 s2) as [[[b t'] w'] s'].
+    unfold tls_total in *; cbn [t_pending t_flushed] in F1. lia.
+Qed.
+
+Lemma tls_tail_conserves fuel t w sched :
+  let '(t', _, _) := tls_tail fuel t w sched in tls_total t' = tls_total t.
+Proof.
+  unfold tls_tail. destruct (negb (w_err w) && negb (w_closed w) && w_can w && negb (t_pending t =? 0)); [|reflexivity].
+  pose proof (tls_flush_conserves fuel t w sched) as F.
+  destruct (tls_flush fuel t w sched) as [[t' w'] s']. tauto.
+Qed.
+
 (** ** Readiness *)
 Definition y_inv (y : rdy) : bool :=
   implb (y_queued y) ((y_event y && y_interest y) || (negb (y_sock y) && y_interest y)).
@@ -443,4 +513,35 @@ Proof.
     rewrite E. destruct ended; cbn; rewrite app_nil_r; reflexivity.
   - intros w blocks'. exact (h2_prepare_budget fuel w max blocks').
   - intros w cs. exact (h2_prepare_end fuel w max cs).
+Qed.
+
+Lemma tls_loops_conserve_proof :
+  forall fuel len t sched,
+    (let '(b, _, t', _) := tls_write fuel len t sched in
+     b <= len /\ t_pending t' + t_flushed t' = t_pending t + t_flushed t + b) /\
+    (let '(b, _, t', _) := tls_writev fuel len t sched in
+     b <= len /\ t_pending t' + t_flushed t' = t_pending t + t_flushed t + b).
+Proof.
+  intros fuel len t sched. split.
+  - unfold tls_write.
+    pose proof (tls_write_loop_conserves fuel len 0 t (mkW true false false) sched (Nat.le_0_l _)) as H.
+    destruct (tls_write_loop fuel len 0 t (mkW true false false) sched) as [[[b t1] w1] s1].
+    pose proof (tls_tail_conserves (S (t_pending t1)) t1 w1 s1) as T.
+    destruct (tls_tail (S (t_pending t1)) t1 w1 s1) as [[t2 w2] s2].
+    unfold tls_total in *. lia.
+  - unfold tls_writev.
+    pose proof (tls_writev_loop_conserves fuel len 0 t (mkW true false false) sched (Nat.le_0_l _)) as H.
+    destruct (tls_writev_loop fuel len 0 t (mkW true false false) sched) as [[[b t1] w1] s1].
+    pose proof (tls_tail_conserves (S (t_pending t1)) t1 w1 s1) as T.
+    destruct (tls_tail (S (t_pending t1)) t1 w1 s1) as [[t2 w2] s2].
+    unfold tls_total in *. lia.
+Qed.
+
+Lemma tls_loops_not_symmetric_proof :
+  exists fuel len t sched,
+    (let '(b, st, _, _) := tls_write fuel len t sched in (b, st)) <>
+    (let '(b, st, _, _) := tls_writev fuel len t sched in (b, st)).
+Proof.
+  exists 50, 10, (mkTls 0 (Some 4) 0), [KWrote 100; KWrote 100; KWrote 100; KWrote 100].
+  vm_compute. discriminate.
 Qed.
